@@ -43,7 +43,7 @@ def uniqByName : List (Name × Pos) → List Name → List (Name × Pos)
 
 def isPrefixOf2 (pfx b : Bytes) : Bool := b.take pfx.length == pfx
 
-def singleFieldSubscriptionsStep (s : Schema) (d : QueryDoc) (e : Event) : Except Bytes (List RErr) :=
+def singleFieldSubscriptionsStep (s : SV) (d : QueryDoc) (e : Event) : Except Bytes (List RErr) :=
   match e.p with
   | .operation op _ =>
     if s.subscription.isNone || op.op != opSubscription then .ok []
